@@ -89,7 +89,8 @@ fn new_world(cfg: &Value) -> WorldRun {
     let spawn_e2 = |app: &mut App| -> Entity {
         let id = cfg["tlE2"].as_i64().unwrap_or(0);
         let an = if id == 0 { Animator::<A>::new() } else { pool_with!(A, id, tl => Animator::<A>::with_timeline(tl)) };
-        app.world.spawn((A { x: A20.0, y: A20.1 }, an)).id()
+        if cfg["c2late"].as_bool().unwrap_or(false) { app.world.spawn(an).id() }      // the target component comes later
+        else { app.world.spawn((A { x: A20.0, y: A20.1 }, an)).id() }
     };
     let mut e2 = None;
     if hase2 && e2first { e2 = Some(spawn_e2(&mut app)); }
@@ -137,6 +138,10 @@ impl WorldRun {
             "settl" => { let id = op["id"].as_i64().unwrap();
                 if t == "B" { pool_with!(B, id, tl => self.app.world.get_mut::<Animator<B>>(e).unwrap().set_timeline(tl)); }
                 else { pool_with!(A, id, tl => self.app.world.get_mut::<Animator<A>>(e).unwrap().set_timeline(tl)); } }
+            "rmcomp" => { self.app.world.entity_mut(self.e2.unwrap()).remove::<A>(); }
+            "addcomp" => { self.app.world.entity_mut(self.e2.unwrap()).insert(A { x: A20.0, y: A20.1 }); }
+            "pause" => { let mut t = self.app.world.resource_mut::<Time>(); if op["b"].as_bool().unwrap() { t.pause(); } else { t.unpause(); } }
+            "speed" => { self.app.world.resource_mut::<Time>().set_relative_speed(op["x"].as_i64().unwrap() as f32); }
             "setpos" => { let p = Duration::from_secs_f32(op["p"].as_i64().unwrap() as f32 * TICK);
                 if t == "B" { self.app.world.get_mut::<Animator<B>>(e).unwrap().timeline_position = p; } else { self.app.world.get_mut::<Animator<A>>(e).unwrap().timeline_position = p; } }
             o => panic!("op {o}"),
@@ -146,6 +151,9 @@ impl WorldRun {
         self.now += Duration::from_secs_f32(dt as f32 * TICK);
         let n = self.now;
         self.app.world.resource_mut::<Time>().update_with_instant(n);
+        // the frame's delta is what Time::delta() reports (it differs from the raw wall-clock step when the
+        // clock is paused or runs at a relative speed other than 1)
+        let dt = ticks(self.app.world.resource::<Time>().delta());
         self.app.update();
         let w = &self.app.world;
         let a = w.get::<Animator<A>>(self.e).unwrap();
@@ -159,9 +167,8 @@ impl WorldRun {
         } else { rec["B"] = json!([0, 0, 1]); rec["compB"] = json!([0, 0]); }
         if let Some(e2) = self.e2 {
             let a2 = w.get::<Animator<A>>(e2).unwrap();
-            let c2 = w.get::<A>(e2).unwrap();
             rec["A2"] = json!([st_no(a2.state()), ticks(a2.timeline_position), a2.enabled as i64]);
-            rec["compA2"] = json!(bits(c2.x, c2.y));
+            rec["compA2"] = match w.get::<A>(e2) { Some(c2) => json!(bits(c2.x, c2.y)), None => json!([0, 0]) };
         } else { rec["A2"] = json!([0, 0, 1]); rec["compA2"] = json!([0, 0]); }
         rec["key"] = json!(if self.hassel { key_no(&w.get::<AnimationSelector<K, A>>(self.e).unwrap().timeline_key) } else { 0 });
         let events = w.resource::<Events<AnimationStateChanged>>();
@@ -189,6 +196,7 @@ fn world_cfg(rng: &mut Rng, wi: u64) -> Value {
     let tl_b = 1 + rng.below(np) as i64;
     let tl_e2 = if rng.below(3) == 0 { 0 } else { 1 + rng.below(np) as i64 };
     json!({"ev": "world", "tl": tl, "keytl": keytl, "chain": chain, "hassel": hassel, "hasb": hasb, "hase2": hase2, "e2first": rng.below(2) == 0,
+           "c2late": hase2 && rng.below(3) == 0,
            "tlA": tl_a, "tlB": tl_b, "tlE2": tl_e2, "key0": 1 + rng.below(3) as i64, "enA": rng.below(6) != 0})
 }
 
@@ -207,7 +215,11 @@ fn drive(seed: u64, nworlds: u64, nframes: u64, out: &str) -> Value {
             if rng.below(4) == 0 {
                 let np = NPOOL as u64;
                 let pos = [0i64, 2, 7, 30][rng.below(4) as usize];
-                let op = match rng.below(9) {
+                let has_c2 = w.e2.map(|e| w.app.world.get::<A>(e).is_some()).unwrap_or(false);
+                let op = match rng.below(13) {
+                    11 | 12 if hase2 => json!({"ev":"op","op": if has_c2 { "rmcomp" } else { "addcomp" }}),
+                    9 => json!({"ev":"op","op":"pause","b": rng.below(2) == 0}),
+                    10 => json!({"ev":"op","op":"speed","x": 1 + rng.below(2)}),
                     0 => json!({"ev":"op","op":"enable","T":"A","b": rng.below(2) == 0}),
                     1 => json!({"ev":"op","op":"reset","T": if hasb && rng.below(2) == 0 { "B" } else { "A" }}),
                     2 if !hassel => json!({"ev":"op","op":"settl","T":"A","id": 1 + rng.below(np)}),
@@ -252,7 +264,7 @@ fn drive_file(inp: &str, out: &str) -> Value {
         assert_eq!(tl.len(), NPOOL, "spec timeline table differs from the harness pool");
         for (i, t) in tl.iter().enumerate() { let (d, tt) = pool_del_tot(i + 1); assert!(t[0] == d && t[1] == tt, "spec timeline table differs from the harness pool at {}", i + 1); }
         let cfg = json!({"ev": "world", "tl": tl, "keytl": c["c"]["KeyTl"], "chain": c["c"]["ChainNext"], "hassel": c["c"]["HasSel"], "hasb": c["c"]["HasB"],
-                         "hase2": c["c"]["HasE2"], "e2first": c["e2first"], "tlA": c["tlA"], "tlB": c["tlB"], "tlE2": c["tlE2"], "key0": c["key0"], "enA": true});
+                         "hase2": c["c"]["HasE2"], "c2late": c["c"]["C2Late"], "e2first": c["e2first"], "tlA": c["tlA"], "tlB": c["tlB"], "tlE2": c["tlE2"], "key0": c["key0"], "enA": true});
         writeln!(f, "{}", cfg).unwrap();
         worlds += 1;
         let mut w = new_world(&cfg);
@@ -277,6 +289,8 @@ fn arr2(v: &Value) -> [i64; 2] { [v[0].as_i64().unwrap(), v[1].as_i64().unwrap()
 /// expected component bits after one frame, given the predicted evaluation identity
 fn expect_a(c: &Value, prev_c: &Value, prev: [i64; 2], got: [i64; 2], hist: &[[i64; 2]], evals: &mut u64) -> [i64; 2] {
     if c[0] == "any" { return got; }                 // the property leaves this frame's component open
+    if c[0] == "absent" { return [0, 0]; }           // no target component on the entity
+    if c[0] == "init" && c.as_array().unwrap().len() == 2 { return if c == prev_c { prev } else { bits(A20.0, A20.1) }; }   // freshly inserted
     if c == prev_c { return prev; }                  // no evaluation since: unchanged
     let a = c.as_array().unwrap();
     let (px, py) = f2(prev);
@@ -317,7 +331,7 @@ fn judge(trace: &str, preds: &str) -> Value {
         for cand in &cands {
             let pred = cand["pred"].as_array().unwrap();
             let mut fail = None;
-            let (mut pa, mut pb, mut p2) = (bits(A0.0, A0.1), bits(B0.0, B0.1), bits(A20.0, A20.1));
+            let (mut pa, mut pb, mut p2) = (bits(A0.0, A0.1), bits(B0.0, B0.1), if cfg["c2late"].as_bool().unwrap_or(false) { [0, 0] } else { bits(A20.0, A20.1) });
             let mut hist_a = vec![pa]; // hist_a[f] = component A before frame f+1 (= after frame f)
             let (mut prev_ca, mut prev_cb, mut prev_c2) = (json!(["init"]), json!(["init"]), json!(["init"]));
             for (fi, fr) in frames.iter().enumerate() {
